@@ -319,7 +319,7 @@ func bodyHandshakeCancel(m cancelMode, helloAfter time.Duration, readTimeout tim
 
 // C10 — cancellation ends the query promptly, sends Cancel and closes the connection.
 func C10(c *vk.Ctx) {
-	c.Rule("scenarios {select, insert, streamed insert, LZ4 select, select with telemetry, insert with stalled writes, select and insert during which the server falls silent or keeps reporting progress once a second without ever ending the stream, select on a transport whose Close reports an error, select and insert (also with a silent server) on a client whose previous query ended with a server exception or ended well, handshake with prompt / late / no hello} x {explicit cancel() from a canceller thread placed by the scheduler at every point of every other thread, context deadline at fake 1 s and 5 s, explicit cancel of a context that also carries a 1 h deadline} x read timeout {3 s, 100 ms} x all schedules (incl. clock steps) up to the deviation bound. distinct_nontrivial = executions.")
+	c.Rule("scenarios {select, insert, streamed insert, LZ4 select, select with telemetry, insert with stalled writes, select during which the server falls silent inside a Data block or inside the nested part of an exception chain, select and insert during which the server falls silent or keeps reporting progress once a second without ever ending the stream, select on a transport whose Close reports an error, select and insert (also with a silent server) on a client whose previous query ended with a server exception or ended well, handshake with prompt / late / no hello} x {explicit cancel() from a canceller thread placed by the scheduler at every point of every other thread, context deadline at fake 1 s and 5 s, explicit cancel of a context that also carries a 1 h deadline} x read timeout {3 s, 100 ms} x all schedules (incl. clock steps) up to the deviation bound. distinct_nontrivial = executions.")
 	quick := c.Quick()
 	bound := 1
 	if !quick {
@@ -375,6 +375,36 @@ func C10(c *vk.Ctx) {
 		for _, m := range []cancelMode{{"cancel", 0, 0}, {"deadline5s", 5 * time.Second, 0}, {"cancel+deadline1h", 0, time.Hour}} {
 			id := fmt.Sprintf("%s-chatty/%s", s.name, m.name)
 			jobs = append(jobs, job{id, body10s(s, m, 0, false, -3), bound, true, "C10/" + s.name + "-chatty"})
+		}
+	}
+	// the server starts a packet and falls silent inside it: inside a Data block, and inside
+	// the nested part of an exception chain (after a complete first exception)
+	for _, s := range scs {
+		if s.name != "select" {
+			continue
+		}
+		for _, part := range []string{"data", "nested-exception"} {
+			ps := s
+			ps.name = s.name + "-silent-inside-" + part
+			mk := s.mk
+			part := part
+			ps.mk = func(c *Conn, fa *failAt) (ch.Query, []Step) {
+				q, steps := mk(c, fa)
+				var b []byte
+				if part == "data" {
+					full := c.W.Data(3, Col("v", "UInt64", U64(1), U64(2), U64(3)))
+					b = full[:len(full)-5]
+				} else {
+					one := c.W.Exception(excReadonly)
+					two := c.W.Exception(excReadonly, excReadonly)
+					b = two[:len(one)+7] // the first exception (marked as having a cause) and 7 bytes of the second
+				}
+				return q, []Step{steps[0], steps[1], {Name: "partial", Send: b}}
+			}
+			for _, m := range []cancelMode{{"cancel", 0, 0}, {"deadline1s", time.Second, 0}, {"deadline5s", 5 * time.Second, 0}} {
+				id := fmt.Sprintf("%s/%s", ps.name, m.name)
+				jobs = append(jobs, job{id, body10s(ps, m, 0, false, 99), bound, true, "C10/" + ps.name})
+			}
 		}
 	}
 	// a transport whose Close tears the connection down but reports an error: the cancelled
